@@ -173,3 +173,303 @@ Theorem C14_state_frame :
    "norminette/rules/is_preprocessor_statement.py"; "norminette/scope.py"]%string.
 Proof. exact state_frame. Qed.
 Print Assumptions C14_state_frame.
+
+(* ====================================================================== file -> tokens -> turns (round 2) *)
+From NV Require Import Model.GuardTok Proofs.GuardTok Proofs.GuardLex Proofs.GuardFile.
+
+(* ---- FILE LEVEL, lexer half: `#ifndef X \n # define Y \n` before any text R the tokenizer accepts ---- *)
+Theorem C14_lex_guard_open :
+  forall (uw ud : N -> bool) (x y R : str) (itemsR : list Lexer.item) (xR : Lexer.st),
+  ident_ok x ->
+  ident_ok y ->
+  Lexer.lex uw ud R = Ok (itemsR, xR) ->
+  exists (its1 its2 : list Lexer.item) (m : nat),
+  Lexer.lex uw ud (ifndef_text x ++ define_text y ++ R) =
+  Ok (its1 ++ its2 ++ map (LineShift.sh_item 2 m) itemsR, LineShift.shl 2 m xR) /\
+  map tv (Lexer.tokens_of its1) = ifndef_line x /\ map tv (Lexer.tokens_of its2) = define_line y.
+Proof. exact lex_guard_open. Qed.
+Print Assumptions C14_lex_guard_open.
+
+(* ... and behind the 42 header *)
+Theorem C14_lex_header_guard_open :
+  forall (uw ud : N -> bool) (f : Header.fields) (x y R : str) (itemsR : list Lexer.item)
+  (xR : Lexer.st),
+  HeaderLex.fields_lex_ok f = true ->
+  ident_ok x ->
+  ident_ok y ->
+  Lexer.lex uw ud R = Ok (itemsR, xR) ->
+  exists (its1 its2 itsR : list Lexer.item) (xf : Lexer.st),
+  Lexer.lex uw ud (Header.lines_text (Header.template f) ++ ifndef_text x ++ define_text y ++ R) =
+  Ok (CommentLines.comment_items 0 1 (Header.template_mids f) ++ its1 ++ its2 ++ itsR, xf) /\
+  map tv (Lexer.tokens_of its1) = ifndef_line x /\
+  map tv (Lexer.tokens_of its2) = define_line y /\
+  map tv (Lexer.tokens_of itsR) = map tv (Lexer.tokens_of itemsR).
+Proof. exact lex_header_guard_open. Qed.
+Print Assumptions C14_lex_header_guard_open.
+
+(* the closing line *)
+Theorem C14_lex_endif_alone :
+  forall uw ud : N -> bool,
+  exists (its : list Lexer.item) (xf : Lexer.st),
+  Lexer.lex uw ud endif_text = Ok (its, xf) /\ map tv (Lexer.tokens_of its) = endif_line.
+Proof. exact lex_endif_alone. Qed.
+Print Assumptions C14_lex_endif_alone.
+
+(* the expected symbol of a name over [a-z0-9_.] that starts with a letter, `_` or `.` is an identifier and no keyword *)
+Theorem C14_guard_of_ident_ok :
+  forall (c : N) (stem : list N),
+  name_start c -> Forall name_char stem -> ident_ok (guard_of ((c :: stem) ++ s ".h")).
+Proof. exact guard_of_ident_ok. Qed.
+Print Assumptions C14_guard_of_ident_ok.
+
+(* ---- engine half: a turn on a guard line (as tokens) is the abstract step of the statement ---- *)
+Theorem C14_tok_step_ifndef :
+  forall (c : gctx) (l1 : list Lexer.token) (x : str) (rest : list Lexer.token) (r : list stmt),
+  map tv l1 = ifndef_line x -> tok_step c PRE (l1 ++ rest) = step c (SPre DIfndef x) r.
+Proof. exact tok_step_ifndef. Qed.
+Print Assumptions C14_tok_step_ifndef.
+
+Theorem C14_tok_step_define :
+  forall (c : gctx) (l2 : list Lexer.token) (x : str) (rest : list Lexer.token) (r : list stmt),
+  map tv l2 = define_line x -> tok_step c PRE (l2 ++ rest) = step c (SPre DDefine x) r.
+Proof. exact tok_step_define. Qed.
+Print Assumptions C14_tok_step_define.
+
+Theorem C14_tok_step_endif :
+  forall (c : gctx) (l3 rest : list Lexer.token) (r : list stmt),
+  map tv l3 = endif_line ->
+  rest = [] \/
+  (exists (t : Lexer.token) (more : list Lexer.token),
+  rest = t :: more /\ is_trivia_ty (Lexer.t_type t) = false) ->
+  forallb is_trivia r = match rest with
+  | [] => true
+  | _ :: _ => false
+  end -> tok_step c PRE (l3 ++ rest) = step c (SPre DEndif []) r.
+Proof. exact tok_step_endif. Qed.
+Print Assumptions C14_tok_step_endif.
+
+(* a range of turns simulated statement by statement emits what the trace model emits *)
+Theorem C14_tok_run_sim :
+  forall (xs : list stmt) (oracle : nat -> Engine.tryres) (toks : list Lexer.token) 
+  (start : nat) (tl : list stmt) (c : gctx),
+  simulates oracle toks start xs tl ->
+  tok_run oracle toks start (Datatypes.length xs) c = run_tl c xs tl.
+Proof. exact tok_run_sim. Qed.
+Print Assumptions C14_tok_run_sim.
+
+(* ---- token level: guarded_shape = comment/blank turns, the `#ifndef x` turn, the `# define y` turn, body turns
+        simulated by abstract statements, the `#endif` turn, then `after` ---- *)
+Theorem C14_tok_accept :
+  forall base : str,
+  file_type base = s ".h" ->
+  forall (oracle : nat -> Engine.tryres) (toks : list Lexer.token) (pre body : list stmt),
+  balanced body ->
+  guarded_shape oracle toks pre body (guard_of base) (guard_of base) [] ->
+  tok_emitted base oracle toks (turns pre body) = [].
+Proof. exact tok_accept. Qed.
+Print Assumptions C14_tok_accept.
+
+Theorem C14_tok_G1 :
+  forall base : str,
+  file_type base = s ".h" ->
+  forall (oracle : nat -> Engine.tryres) (toks : list Lexer.token) (pre body : list stmt) (x y : str),
+  x <> guard_of base ->
+  py_upper x <> guard_of base ->
+  guarded_shape oracle toks pre body x y [] ->
+  In (s "HEADER_PROT_NAME") (tok_emitted base oracle toks (turns pre body)).
+Proof. exact tok_G1. Qed.
+Print Assumptions C14_tok_G1.
+
+Theorem C14_tok_G2 :
+  forall base : str,
+  file_type base = s ".h" ->
+  forall (oracle : nat -> Engine.tryres) (toks : list Lexer.token) (pre body : list stmt) (x y : str),
+  x <> guard_of base ->
+  py_upper x = guard_of base ->
+  guarded_shape oracle toks pre body x y [] ->
+  In (s "HEADER_PROT_UPPER") (tok_emitted base oracle toks (turns pre body)).
+Proof. exact tok_G2. Qed.
+Print Assumptions C14_tok_G2.
+
+Theorem C14_tok_G3 :
+  forall base : str,
+  file_type base = s ".h" ->
+  forall (oracle : nat -> Engine.tryres) (toks : list Lexer.token) (pre body : list stmt) (x y : str),
+  y <> guard_of base ->
+  balanced body ->
+  defines (guard_of base) body = false ->
+  guarded_shape oracle toks pre body x y [] ->
+  In (s "HEADER_PROT_NODEF") (tok_emitted base oracle toks (turns pre body)).
+Proof. exact tok_G3. Qed.
+Print Assumptions C14_tok_G3.
+
+Theorem C14_tok_G6 :
+  forall base : str,
+  file_type base = s ".h" ->
+  forall (oracle : nat -> Engine.tryres) (toks : list Lexer.token) (pre body : list stmt)
+  (x y : str) (t : Lexer.token) (more : list Lexer.token),
+  is_trivia_ty (Lexer.t_type t) = false ->
+  balanced body ->
+  guarded_shape oracle toks pre body x y (t :: more) ->
+  In (s "HEADER_PROT_ALL_AF") (tok_emitted base oracle toks (turns pre body)).
+Proof. exact tok_G6. Qed.
+Print Assumptions C14_tok_G6.
+
+(* ---- file level: text -> lex -> tokens -> turns.  Hypotheses left: the oracle recognises the two opening lines as
+        IsPreprocessorStatement (jump 5 / 6), and rest_shape (body turns simulated, closing `#endif` line) ---- *)
+Theorem C14_file_shape_header :
+  forall (uw ud : N -> bool) (f : Header.fields) (x y R : str) (itemsR : list Lexer.item)
+  (xR : Lexer.st) (items' : list Lexer.item) (xf' : Lexer.st) (oracle : nat -> Engine.tryres)
+  (body : list stmt) (after : list Lexer.token),
+  HeaderLex.fields_lex_ok f = true ->
+  ident_ok x ->
+  ident_ok y ->
+  Lexer.lex uw ud R = Ok (itemsR, xR) ->
+  Lexer.lex uw ud (Header.lines_text (Header.template f) ++ ifndef_text x ++ define_text y ++ R) =
+  Ok (items', xf') ->
+  EngineTok.induced oracle (Lexer.tokens_of items') ->
+  oracle 11%nat = Engine.Matched PRE 5 ->
+  oracle 12%nat = Engine.Matched PRE 6 ->
+  rest_shape oracle (Lexer.tokens_of items') 13 body after ->
+  guarded_shape oracle (Lexer.tokens_of items') comments11 body x y after.
+Proof. exact file_shape_header. Qed.
+Print Assumptions C14_file_shape_header.
+
+Theorem C14_file_accept_partial :
+  forall (uw ud : N -> bool) (base : str),
+  file_type base = s ".h" ->
+  forall f : Header.fields,
+  HeaderLex.fields_lex_ok f = true ->
+  forall (R : str) (itemsR : list Lexer.item) (xR : Lexer.st),
+  Lexer.lex uw ud R = Ok (itemsR, xR) ->
+  forall (oracle : nat -> Engine.tryres) (body : list stmt) (items' : list Lexer.item) (xf' : Lexer.st),
+  ident_ok (guard_of base) ->
+  Lexer.lex uw ud
+  (Header.lines_text (Header.template f) ++
+  ifndef_text (guard_of base) ++ define_text (guard_of base) ++ R) = Ok (items', xf') ->
+  EngineTok.induced oracle (Lexer.tokens_of items') ->
+  oracle 11%nat = Engine.Matched PRE 5 ->
+  oracle 12%nat = Engine.Matched PRE 6 ->
+  rest_shape oracle (Lexer.tokens_of items') 13 body [] ->
+  balanced body -> tok_emitted base oracle (Lexer.tokens_of items') (turns comments11 body) = [].
+Proof. exact file_accept_partial. Qed.
+Print Assumptions C14_file_accept_partial.
+
+Theorem C14_file_G1_partial :
+  forall (uw ud : N -> bool) (base : str),
+  file_type base = s ".h" ->
+  forall f : Header.fields,
+  HeaderLex.fields_lex_ok f = true ->
+  forall (R : str) (itemsR : list Lexer.item) (xR : Lexer.st),
+  Lexer.lex uw ud R = Ok (itemsR, xR) ->
+  forall (oracle : nat -> Engine.tryres) (body : list stmt) (x y : str) (items' : list Lexer.item)
+  (xf' : Lexer.st),
+  ident_ok x ->
+  ident_ok y ->
+  x <> guard_of base ->
+  py_upper x <> guard_of base ->
+  Lexer.lex uw ud (Header.lines_text (Header.template f) ++ ifndef_text x ++ define_text y ++ R) =
+  Ok (items', xf') ->
+  EngineTok.induced oracle (Lexer.tokens_of items') ->
+  oracle 11%nat = Engine.Matched PRE 5 ->
+  oracle 12%nat = Engine.Matched PRE 6 ->
+  rest_shape oracle (Lexer.tokens_of items') 13 body [] ->
+  In (s "HEADER_PROT_NAME") (tok_emitted base oracle (Lexer.tokens_of items') (turns comments11 body)).
+Proof. exact file_G1_partial. Qed.
+Print Assumptions C14_file_G1_partial.
+
+Theorem C14_file_G2_partial :
+  forall (uw ud : N -> bool) (base : str),
+  file_type base = s ".h" ->
+  forall f : Header.fields,
+  HeaderLex.fields_lex_ok f = true ->
+  forall (R : str) (itemsR : list Lexer.item) (xR : Lexer.st),
+  Lexer.lex uw ud R = Ok (itemsR, xR) ->
+  forall (oracle : nat -> Engine.tryres) (body : list stmt) (x y : str) (items' : list Lexer.item)
+  (xf' : Lexer.st),
+  ident_ok x ->
+  ident_ok y ->
+  x <> guard_of base ->
+  py_upper x = guard_of base ->
+  Lexer.lex uw ud (Header.lines_text (Header.template f) ++ ifndef_text x ++ define_text y ++ R) =
+  Ok (items', xf') ->
+  EngineTok.induced oracle (Lexer.tokens_of items') ->
+  oracle 11%nat = Engine.Matched PRE 5 ->
+  oracle 12%nat = Engine.Matched PRE 6 ->
+  rest_shape oracle (Lexer.tokens_of items') 13 body [] ->
+  In (s "HEADER_PROT_UPPER") (tok_emitted base oracle (Lexer.tokens_of items') (turns comments11 body)).
+Proof. exact file_G2_partial. Qed.
+Print Assumptions C14_file_G2_partial.
+
+Theorem C14_file_G3_partial :
+  forall (uw ud : N -> bool) (base : str),
+  file_type base = s ".h" ->
+  forall f : Header.fields,
+  HeaderLex.fields_lex_ok f = true ->
+  forall (R : str) (itemsR : list Lexer.item) (xR : Lexer.st),
+  Lexer.lex uw ud R = Ok (itemsR, xR) ->
+  forall (oracle : nat -> Engine.tryres) (body : list stmt) (x y : str) (items' : list Lexer.item)
+  (xf' : Lexer.st),
+  ident_ok x ->
+  ident_ok y ->
+  y <> guard_of base ->
+  balanced body ->
+  defines (guard_of base) body = false ->
+  Lexer.lex uw ud (Header.lines_text (Header.template f) ++ ifndef_text x ++ define_text y ++ R) =
+  Ok (items', xf') ->
+  EngineTok.induced oracle (Lexer.tokens_of items') ->
+  oracle 11%nat = Engine.Matched PRE 5 ->
+  oracle 12%nat = Engine.Matched PRE 6 ->
+  rest_shape oracle (Lexer.tokens_of items') 13 body [] ->
+  In (s "HEADER_PROT_NODEF") (tok_emitted base oracle (Lexer.tokens_of items') (turns comments11 body)).
+Proof. exact file_G3_partial. Qed.
+Print Assumptions C14_file_G3_partial.
+
+Theorem C14_file_G6_partial :
+  forall (uw ud : N -> bool) (base : str),
+  file_type base = s ".h" ->
+  forall f : Header.fields,
+  HeaderLex.fields_lex_ok f = true ->
+  forall (R : str) (itemsR : list Lexer.item) (xR : Lexer.st),
+  Lexer.lex uw ud R = Ok (itemsR, xR) ->
+  forall (oracle : nat -> Engine.tryres) (body : list stmt) (x y : str) (t : Lexer.token)
+  (more : list Lexer.token) (items' : list Lexer.item) (xf' : Lexer.st),
+  ident_ok x ->
+  ident_ok y ->
+  is_trivia_ty (Lexer.t_type t) = false ->
+  balanced body ->
+  Lexer.lex uw ud (Header.lines_text (Header.template f) ++ ifndef_text x ++ define_text y ++ R) =
+  Ok (items', xf') ->
+  EngineTok.induced oracle (Lexer.tokens_of items') ->
+  oracle 11%nat = Engine.Matched PRE 5 ->
+  oracle 12%nat = Engine.Matched PRE 6 ->
+  rest_shape oracle (Lexer.tokens_of items') 13 body (t :: more) ->
+  In (s "HEADER_PROT_ALL_AF") (tok_emitted base oracle (Lexer.tokens_of items') (turns comments11 body)).
+Proof. exact file_G6_partial. Qed.
+Print Assumptions C14_file_G6_partial.
+
+Theorem C14_file_accept_plain_partial :
+  forall (uw ud : N -> bool) (base R : str) (itemsR : list Lexer.item) (xR : Lexer.st)
+  (items' : list Lexer.item) (xf' : Lexer.st) (oracle : nat -> Engine.tryres)
+  (body : list stmt),
+  file_type base = s ".h" ->
+  ident_ok (guard_of base) ->
+  Lexer.lex uw ud R = Ok (itemsR, xR) ->
+  Lexer.lex uw ud (ifndef_text (guard_of base) ++ define_text (guard_of base) ++ R) = Ok (items', xf') ->
+  oracle 0%nat = Engine.Matched PRE 5 ->
+  oracle 1%nat = Engine.Matched PRE 6 ->
+  rest_shape oracle (Lexer.tokens_of items') 2 body [] ->
+  balanced body -> tok_emitted base oracle (Lexer.tokens_of items') (turns [] body) = [].
+Proof. exact file_accept_plain_partial. Qed.
+Print Assumptions C14_file_accept_plain_partial.
+
+(* non-vacuity of the file-level hypotheses: a complete three-line header, tokenizer model run, obvious oracle *)
+Theorem C14_file_example :
+  match Lexer.lex nouni_ nouni_ ex_text with
+  | Ok (items, _) =>
+      rest_shape ex_oracle (Lexer.tokens_of items) 2 [] [] /\
+      tok_emitted (s "a.h") ex_oracle (Lexer.tokens_of items) 3 = [] /\ guard_of (s "a.h") = s "A_H"
+  | _ => False
+  end.
+Proof. exact ex_file_accept. Qed.
+Print Assumptions C14_file_example.
